@@ -424,11 +424,14 @@ def canon_tabs(txt):
     return ";".join("%s=%s" % (x.partition("=")[0], canon_bag_text(x.partition("=")[2])) for x in txt.split(";") if x)
 
 
-def canon_manifest(txt):
+def canon_manifest(txt, rename=None):
     """Canonical form of a printed manifest: per transaction, table ops in order, the other
     records sorted, DV ids detached from their row-sets (which DV id goes to which row-set of one
     DELETE follows hash-map order in the implementation)."""
     recs = txt.split()
+    if rename:
+        recs = [(r.split(":")[0] + ":" + rename[r.split(":", 1)[1]]) if (r[:3] in ("AV:", "DV:") and r.split(":", 1)[1] in rename) else r
+                for r in recs]
     txns, cur, loose = [], None, []
     for r in recs:
         if r == "B":
@@ -608,6 +611,7 @@ def compare_hist(h, impl, model):
     ev = []
     cnt = {"mi": 0, "mi_bad": 0, "io": 0, "io_bad": 0, "mo": 0, "mo_bad": 0, "steps": 0}
     tags = set()
+    dvmap = {}
     stats = {"max_rowsets": 0, "deleted_rows": 0, "merges": 0, "reopens": 0, "dv_rowsets": 0, "bulk_parts": 0,
              "reopens_with_data": 0}
     prev_tabs = None
@@ -632,8 +636,22 @@ def compare_hist(h, impl, model):
             diffs.append(("out", iout, m["out"]))
         if "tabs" in i and "tabs" in m:
             keyed = keyed_tids(i.get("cat", ""))
+            # which DV id goes to which row-set of one DELETE follows hash-map order in the
+            # implementation: pair the DVs that are new in this step by their row-set and carry
+            # the renaming (impl "t.r.id" -> model "t.r.id") through the rest of the history
+            new_i = [r[3:] for r in i.get("man", "").split() if r.startswith("AV:") and r[3:] not in dvmap]
+            new_m = [r[3:] for r in m.get("man", "").split() if r.startswith("AV:") and r[3:] not in dvmap.values()]
+            by_rs = {}
+            for x in new_m:
+                by_rs.setdefault(x.rsplit(".", 1)[0], []).append(x)
+            for x in new_i:
+                cands = by_rs.get(x.rsplit(".", 1)[0])
+                if cands:
+                    dvmap[x] = cands.pop(0)
             for f, c in FIELDS:
-                if f in ("dv", "phys"):
+                if f == "man":
+                    a, b = canon_manifest(i.get(f, ""), dvmap), canon_manifest(m.get(f, ""))
+                elif f in ("dv", "phys"):
                     a, b = canon_positions(i.get(f, ""), keyed), canon_positions(m.get(f, ""), keyed)
                 else:
                     a, b = c(i.get(f, "")), c(m.get(f, ""))
